@@ -47,7 +47,7 @@ fn parse_args(raw: &[String]) -> Args {
     let mut flags = Vec::new();
     let takes_value = [
         "--seed", "--from", "--to", "--stride", "--offset", "--out", "--idx",
-        "--watchdog", "--family", "--tmp", "--plan", "--threads",
+        "--watchdog", "--family", "--tmp", "--plan", "--threads", "--budget", "--steps",
     ];
     let mut i = 0;
     while i < raw.len() {
@@ -171,7 +171,8 @@ fn cmd_minimize(a: &Args) -> Result<i32, String> {
         .cloned()
         .unwrap_or_else(|| "/verif/sim/target/tmp".to_string());
     let wd = a.u64("--watchdog", 3)?;
-    let mut m = minimize::Minimizer::new(Path::new(&tmp), wd)?;
+    let budget = a.u64("--budget", 120)?;
+    let mut m = minimize::Minimizer::new(Path::new(&tmp), wd, budget)?;
     let r = m.minimize(&session);
     m.cleanup();
     let min = r?;
